@@ -464,6 +464,8 @@ generate (uint64_t seed, int tier, const char *property, scenario_t *sc)
 	m[2] = rng_range (&r, -60 * 65536, 60 * 65536); m[5] = rng_range (&r, -60 * 65536, 60 * 65536);
 	m[6] = rng_range (&r, -300, 300); m[7] = rng_range (&r, -300, 300);
 	m[8] = rng_chance (&r, 1, 3) ? 65536 : rng_chance (&r, 1, 2) ? 3 * 65536 : rng_range (&r, 50000, 3 * 65536);
+	/* the upper rows a plain scale + translation now and then */
+	if (rng_chance (&r, 1, 3)) { m[1] = m[3] = 0; if (!m[0]) m[0] = 65536; if (!m[4]) m[4] = 65536; m[0] = m[0] < 0 ? -m[0] : m[0]; m[4] = m[4] < 0 ? -m[4] : m[4]; }
 	/* sparse bottom rows: (0,0,w), (0,p,1), (p,0,1) are projective too */
 	switch (rng_n (&r, 6))
 	{
